@@ -12,9 +12,8 @@ from .base import Result, V
 from . import simcommon as SC
 from .c07 import dev
 
-MODULES = ["TickitModel.Props.C13", "TickitModel.Props.C15"]
-THEOREMS = ["contract_exactly_once", "deliver_enabled", "late_subscribe_is_delay", "producer_before_subscribe",
-            "subscribe_before_producer_crashes", "bus_exactly_once_in_order"]
+MODULES = ['TickitModel.Props.C13', 'TickitModel.Props.C15', 'TickitModel.Props.C17Codec']
+THEOREMS = ['contract_exactly_once', 'deliver_enabled', 'late_subscribe_is_delay', 'producer_before_subscribe', 'subscribe_before_producer_crashes', 'bus_exactly_once_in_order', 'syncBus_refines_contract']
 ANCHORS = ["src/tickit/core/components/component.py", "src/tickit/core/state_interfaces/internal.py",
            "src/tickit/core/state_interfaces/kafka.py", "src/tickit/core/simulation.py",
            "src/tickit/core/components/system_component.py", "src/tickit/core/management/schedulers/base.py"]
@@ -22,7 +21,7 @@ TECHNIQUE = "Lean 4 theorems (contract bus: replay from the first message exactl
 LEVEL_TEXT = ("Theorems over the state-interface contract model: in every execution a consumer receives exactly the log prefix up to its cursor from the "
               "very first message, whenever it subscribed; every execution is equivalent (same logs, same deliveries in the same order) to one in "
               "which all subscriptions come first - so start delays are delivery delays, and schedule independence (C08) transfers; with the producer "
-              "created before the subscription no interleaving handles an input without a producer (and the opposite order provably crashes). PARTIAL: "
+              "created before the subscription no interleaving handles an input without a producer (and the opposite order provably crashes); the synchronous internal bus is proved to be a refinement of the contract bus. PARTIAL: "
               "the link from 'start delays are delays' to 'same observations' rests on C08, proved for flat simulations. Tie to the code: every "
               "assignment of start delays 0..2/3 event-loop steps to the scheduler and each top-level component (device and system components) of "
               "small configurations, under the internal-bus semantics and a delaying bus, plus early interrupts raised before a late scheduler is "
